@@ -14,7 +14,7 @@ RULE = ("random histories (as C12) in which invalid calls are injected at every 
         "array operands, negative factors, histogram*histogram, over-subtraction, wrong weight shapes and column counts, invalid and lossy "
         "dtypes, bad weights, merge amounts, axes and indices; after every public call shapes / signs are checked on every object touched, "
         "after every raise the target's contents per interval, errors2 and missed values must be unchanged; non-trivial = history with "
-        ">= 2 injected faults that raised on a target holding content; distinct by hash of the operation log")
+        ">= 2 injected faults that raised on a target holding content; distinct by hash of the operation log `C13.narrow_count_case` also runs here (a fill_n that raises has booked nothing); collections: normalize_all with a member that cannot be normalised; world faults include set_adaptive on right-closed bins and an adaptive ND addend of another width on the last axis.")
 ASSUMPTIONS = [
     "negative weights are outside the statement and not injected; zero divisors, weights whose square overflows, and blocks of free arithmetics left by an exception are",
     "a lossless dtype promotion and zero-content bin growth before the raise are allowed (statement)",
